@@ -397,6 +397,123 @@ Proof.
   - apply N.mod_mul. apply N.pow_nonzero. lia.
 Qed.
 
+(* ---- BGP-LS *)
+Lemma be16_of_bytes a b : a < 256 -> b < 256 -> be16 (a * 256 + b) = [a; b].
+Proof.
+  intros Ha Hb. unfold be16. f_equal; [|f_equal].
+  - rewrite N.div_add_l by lia. rewrite (N.div_small b) by lia. rewrite N.add_0_r. apply N.mod_small. exact Ha.
+  - rewrite N.add_comm, N.mod_add by lia. apply N.mod_small. exact Hb.
+Qed.
+
+Lemma read_tlv16s_exact fuel : forall b l,
+  bytes_ok b -> read_tlv16s fuel b = Some l ->
+  flat_map enc_tlv16 l = b /\ tlv_types_ok l /\ Forall (fun t => bytes_ok (snd t)) l.
+Proof.
+  induction fuel as [|k IH]; intros b l Hb H.
+  - destruct b; [|discriminate]. inversion H; subst. repeat split; constructor.
+  - destruct b as [|t1 [|t0 [|l1 [|l0 r]]]]; try discriminate; [inversion H; subst; repeat split; constructor|].
+    cbn [read_tlv16s] in H.
+    inversion Hb as [|? ? H1 Hb1]; subst. inversion Hb1 as [|? ? H0 Hb2]; subst.
+    inversion Hb2 as [|? ? Hl1 Hb3]; subst. inversion Hb3 as [|? ? Hl0 Hr]; subst.
+    destruct (take (l1 * 256 + l0) r) as [[v r']|] eqn:Et; [|discriminate].
+    apply take_spec in Et as [Hv ->]. apply bytes_ok_app in Hr as [Hbv Hr'].
+    destruct (read_tlv16s k r') as [l'|] eqn:El; [|discriminate]. inversion H; subst.
+    destruct (IH _ _ Hr' El) as [Hex [Hty Hbs]].
+    split; [|split; [constructor; [cbn [fst]; lia | exact Hty] | constructor; [exact Hbv | exact Hbs]]].
+    cbn [flat_map]. rewrite Hex. unfold enc_tlv16. cbn [fst snd]. change (len v) with (blen v). rewrite Hv.
+    rewrite trunc16_small by lia. rewrite !be16_of_bytes by assumption. reflexivity.
+Qed.
+
+Lemma read_sids_exact tl : forall s,
+  Forall (fun t => bytes_ok (snd t)) tl -> read_sids tl = Some s ->
+  map (fun x => (518, be16 (fst x) ++ [0; 0] ++ snd x)) s = tl /\ Forall (fun x => fst x < 65536 /\ blen (snd x) = 16) s.
+Proof.
+  induction tl as [|[t v] tl IH]; intros s Hb H; cbn [read_sids] in H.
+  - inversion H; subst. split; [reflexivity | constructor].
+  - inversion Hb as [|? ? Hv Htl]; subst. cbn [snd] in Hv.
+    destruct (t =? 518) eqn:Et; [|discriminate]. apply N.eqb_eq in Et. subst t.
+    destruct (takes [2; 2; 16] v) as [[fs r]|] eqn:E; [|discriminate].
+    pose proof (takes_spec _ _ _ _ E) as [Hm ->].
+    destruct fs as [|mt [|z [|sid [|f4 fs']]]]; try discriminate Hm.
+    destruct z as [|z0 [|z1 [|? ?]]]; try discriminate H; try (cbn in Hm; discriminate Hm);
+      try (exfalso; cbn [map] in Hm; injection Hm as _ Hz _; unfold blen in Hz; cbn [length] in Hz; lia).
+    destruct z0 as [|pz0]; [|discriminate H]. destruct z1 as [|pz1]; [|discriminate H]. destruct r as [|r0 r']; [|discriminate H].
+    destruct (read_sids tl) as [s'|] eqn:Es; [|discriminate H]. inversion H; subst.
+    cbn [map] in Hm. injection Hm as Hmt Hsid.
+    destruct (IH _ Htl eq_refl) as [Hex Hok].
+    cbn [concat] in Hv. rewrite ?app_nil_r in Hv. split_bytes Hv.
+    destruct mt as [|m1 [|m0 [|? ?]]]; try discriminate Hmt; try (exfalso; unfold blen in Hmt; cbn [length] in Hmt; lia).
+    assert (Hm1 : m1 < 256 /\ m0 < 256).
+    { match goal with Hx : bytes_ok [m1; m0] |- _ => inversion Hx as [|? ? Ha Hx']; inversion Hx' as [|? ? Hb' _]; subst; auto end. }
+    destruct Hm1 as [Hm1 Hm0].
+    split.
+    + cbn [map fst snd]. rewrite Hex. f_equal. f_equal. cbn [rdn concat app]. rewrite N.mul_0_l, N.add_0_l.
+      rewrite be16_of_bytes by assumption. cbn [app]. rewrite !app_nil_r. reflexivity.
+    + constructor; [|exact Hok]. cbn [fst snd rdn]. split; [nia | exact Hsid].
+Qed.
+
+Lemma read_ls_sound b v rest : bytes_ok b -> read_ls b = Some (v, rest) -> structured SLs (0, v) /\ canon_struct v = v.
+Proof.
+  intros Hb H. unfold read_ls in H.
+  destruct b as [|t1 [|t0 [|l1 [|l0 r]]]]; try discriminate.
+  inversion Hb as [|? ? H1 Hb1]; subst. inversion Hb1 as [|? ? H0 Hb2]; subst.
+  inversion Hb2 as [|? ? Hl1 Hb3]; subst. inversion Hb3 as [|? ? Hl0 Hr]; subst. clear Hb Hb1 Hb2 Hb3.
+  set (ty := t1 * 256 + t0) in *.
+  assert (Hty : ty < 65536) by (subst ty; lia).
+  destruct (take (l1 * 256 + l0) r) as [[body rest']|] eqn:Et; [|discriminate].
+  apply take_spec in Et as [Hbody ->]. apply bytes_ok_app in Hr as [Hbb _].
+  assert (Hn : blen body < 65536) by lia.
+  assert (Hgoal : forall n, ls_wf n -> structured SLs (0, NLs n) /\ canon_struct (NLs n) = NLs n).
+  { intros n Hw. split; [split; [reflexivity | exact Hw] | reflexivity]. }
+  destruct (ls_known ty && (9 <=? blen body)) eqn:Ek.
+  2:{ inversion H; subst. apply Hgoal. split; [|split; assumption].
+      unfold enc_ls. rewrite !blen_app. change (blen (be16 ty)) with 2. change (blen (be16 (trunc16 (len body)))) with 2. lia. }
+  destruct body as [|p b1]; [discriminate|]. inversion Hbb as [|? ? Hp Hb1]; subst.
+  destruct (take 8 b1) as [[idb d]|] eqn:E8; [|discriminate].
+  apply take_spec in E8 as [Hid ->]. apply bytes_ok_app in Hb1 as [Hbi Hbd].
+  assert (Hi : rdn idb 0 < 18446744073709551616) by (apply (rdn_lt idb 8); assumption).
+  destruct (read_tlv16s (length d) d) as [tls|] eqn:Ed; [|discriminate].
+  destruct (read_tlv16s_exact _ _ _ Hbd Ed) as [Hdx [Hdt Hdb]].
+  destruct tls as [|[c lv] tl]; [discriminate|].
+  destruct (c =? 256) eqn:Ec; [apply N.eqb_eq in Ec; subst c|].
+  2:{ exfalso. destruct c as [|c']; [discriminate H|]. apply N.eqb_neq in Ec.
+      repeat (destruct c' as [c'|c'|]; try discriminate H); congruence. }
+  inversion Hdb as [|? ? Hblv Hbtl]; subst. cbn [snd] in Hblv.
+  destruct (read_tlv16s (length lv) lv) as [local|] eqn:El; [|discriminate].
+  destruct (read_tlv16s_exact _ _ _ Hblv El) as [Hlx [Hlt _]].
+  inversion Hdt as [|? ? _ Htlt]; subst.
+  (* the length of the re-encoded NLRI is the length that was read *)
+  assert (Hsz : forall tyc tl', flat_map enc_tlv16 tl' = flat_map enc_tlv16 tl ->
+            blen (be16 tyc ++ be16 (trunc16 (len (p :: be64 (rdn idb 0) ++ ls_container 256 local ++ flat_map enc_tlv16 tl'))) ++
+                  p :: be64 (rdn idb 0) ++ ls_container 256 local ++ flat_map enc_tlv16 tl') < 65540).
+  { intros tyc tl' Htl'. rewrite !blen_app. change (blen (be16 tyc)) with 2.
+    change (blen (be16 (trunc16 (len (p :: be64 (rdn idb 0) ++ ls_container 256 local ++ flat_map enc_tlv16 tl'))))) with 2.
+    rewrite blen_cons, !blen_app, Htl'. change (blen (be64 (rdn idb 0))) with 8.
+    cbn [flat_map] in Hn. fold (ls_container 256 local) in Hn. rewrite blen_cons, !blen_app, Hid in Hn. lia. }
+  destruct (ty =? 1) eqn:E1.
+  { destruct tl; [|discriminate]. inversion H; subst. apply Hgoal. split; [|repeat split; assumption].
+    unfold enc_ls. specialize (Hsz 1 [] eq_refl). cbn [flat_map] in Hsz. rewrite app_nil_r in Hsz. exact Hsz. }
+  destruct (ty =? 2) eqn:E2.
+  { destruct tl as [|[c2 rv] k]; [discriminate|].
+    destruct (c2 =? 257) eqn:Ec2; [apply N.eqb_eq in Ec2; subst c2|].
+    2:{ exfalso. destruct c2 as [|c']; [discriminate H|]. apply N.eqb_neq in Ec2.
+        repeat (destruct c' as [c'|c'|]; try discriminate H); congruence. }
+    inversion Hbtl as [|? ? Hbrv Hbk]; subst. cbn [snd] in Hbrv.
+    destruct (read_tlv16s (length rv) rv) as [remote|] eqn:Er; [|discriminate]. inversion H; subst.
+    destruct (read_tlv16s_exact _ _ _ Hbrv Er) as [Hrx [Hrt _]].
+    inversion Htlt as [|? ? _ Hkt]; subst.
+    apply Hgoal. split; [|repeat split; assumption].
+    unfold enc_ls. apply (Hsz 2 ((257, flat_map enc_tlv16 remote) :: k)). reflexivity. }
+  destruct (ty =? 6) eqn:E6.
+  { destruct (read_sids tl) as [s|] eqn:Es; [|discriminate]. inversion H; subst.
+    destruct (read_sids_exact _ _ Hbtl Es) as [Hsx Hsok].
+    apply Hgoal. split; [|repeat split; assumption].
+    unfold enc_ls. rewrite (flat_map_map (fun x => (518, be16 (fst x) ++ [0; 0] ++ snd x)) s). rewrite Hsx.
+    apply (Hsz 6 tl eq_refl). }
+  inversion H; subst. apply Hgoal. split; [|repeat split; assumption].
+  unfold enc_ls. apply (Hsz (if ty =? 4 then 4 else 3) tl eq_refl).
+Qed.
+
 (* ---- all structured kinds: what a reader returns is representable and canonical ... *)
 Theorem C04_read_struct_sound :
   forall (k : skind) (b : list N) (v : nlri) (rest : list N),
@@ -408,6 +525,7 @@ Proof.
   - eapply read_evpn_sound; eassumption.
   - eapply read_srp_sound; eassumption.
   - eapply read_mup_sound; eassumption.
+  - eapply read_ls_sound; eassumption.
 Qed.
 
 (* ... hence decode (encode (decode b)) = decode b: every value obtained by reading octets is
